@@ -464,6 +464,8 @@ def run (ctx):
         ctx.undecided('R-DOM', pm, "only bits selected by the mask are changed", "the bit is derived from the mask arithmetically (`%s`); not evaluated" % norm(c.args[1]), (swmod, c), 'D4')
       else:
         ctx.bad('R-DOM', pm, "only bits selected by the mask are changed", "the configuration bit passed to _set_port_config_bit neither depends on the message's mask nor is tested against it (facts %s): bits outside the mask are overwritten" % fs, (swmod, c), 'D4')
+  from . import c18 as c18s_
+  c18s_.packet_truth_tests(ctx, repo, repo.cls('datapaths.switch', 'SoftwareSwitchBase'), 'D1')
   # ---- mechanisms this property shares with others: their checks' rules about these functions are obligations here too
   ctx.include('C18', ['_process_actions_for_packet_from_buffer'], 'actions of a buffered packet run inside the use-and-free routine')
 
